@@ -10,8 +10,10 @@ package store
 import (
 	"bufio"
 	"bytes"
+	"fmt"
 	"io"
 	"os"
+	"strings"
 
 	"github.com/douban/gobeansdb/cmem"
 )
@@ -297,4 +299,62 @@ func VerifHintBufferDump(path string, items []VerifHintItem, recSizes []uint32) 
 	}
 	_, err = buf.Dump(path)
 	return
+}
+
+// --- in-memory tree (engine htree): a tree of its own, every node observable ---
+
+type VerifHTree struct{ t *HTree }
+
+// VerifNewHTree builds a tree for bucket bucketID with the given depth and height (as HStore does at start).
+func VerifNewHTree(depth, bucketID, height int) *VerifHTree {
+	return &VerifHTree{t: newHTree(depth, bucketID, height)}
+}
+
+func (v *VerifHTree) Set(khash uint64, key string, ver int32, vhash uint16, chunk int, off uint32) {
+	ki := NewKeyInfoFromBytes([]byte(key), khash, false)
+	v.t.set(ki, &Meta{Ver: ver, ValueHash: vhash}, Position{chunk, off})
+}
+
+func (v *VerifHTree) Remove(khash uint64, key string, chunk int, off uint32) {
+	ki := NewKeyInfoFromBytes([]byte(key), khash, false)
+	v.t.remove(ki, Position{chunk, off})
+}
+
+func (v *VerifHTree) MovePos(khash uint64, key string, oldChunk int, oldOff uint32, newChunk int, newOff uint32) bool {
+	ki := NewKeyInfoFromBytes([]byte(key), khash, false)
+	moved, _ := v.t.movePos(ki, Position{oldChunk, oldOff}, Position{newChunk, newOff})
+	return moved
+}
+
+func (v *VerifHTree) Update() (count uint32, hash uint16) {
+	nd := v.t.Update()
+	return nd.count, nd.hash
+}
+
+func (v *VerifHTree) ListDir(path string) ([]byte, error) {
+	return v.t.ListDir(NewKeyInfoFromBytes([]byte(path), 0, true))
+}
+
+// RootCount is what HStore.NumKey reads: the root count as it is, with no update.
+func (v *VerifHTree) RootCount() uint32 { return v.t.levels[0][0].count }
+
+// Snapshot: (count, hash, up-to-date flag) of every inner node and (count, hash) of every leaf, level by level.
+func (v *VerifHTree) Snapshot() string {
+	var sb strings.Builder
+	for l, lv := range v.t.levels {
+		fmt.Fprintf(&sb, "L%d:", l)
+		for _, n := range lv {
+			if l == len(v.t.levels)-1 {
+				fmt.Fprintf(&sb, "%d,%d;", n.count, n.hash)
+			} else {
+				f := 0
+				if n.isHashUpdated {
+					f = 1
+				}
+				fmt.Fprintf(&sb, "%d,%d,%d;", n.count, n.hash, f)
+			}
+		}
+		sb.WriteString("|")
+	}
+	return sb.String()
 }
